@@ -13,7 +13,7 @@ RULE = ('identifier-tagged objects (value = ravelled position, tagged derivative
         'from every entry kind in every position; distinct = distinct request line; non-trivial = the index contains an '
         'array entry, a masked/out-of-range entry or the object has masked elements')
 MANIFEST = {
-    'text': 'Kernel-checked theorems (PMV/Props/C09.lean, 30) about a code-shaped Lean model of polymath/extensions/indexer.py '
+    'text': 'Kernel-checked theorems (PMV/Props/C09.lean, 31) about a code-shaped Lean model of polymath/extensions/indexer.py '
             '(_prep_index statement by statement, _prep_scalar_index, __getitem__ with every mask-representation branch, '
             'relocation of array axes, derivative recursion, iteration) on top of a denotational model of NumPy basic + '
             'advanced indexing, relative to a per-element specification sel. End-to-end refinements getitem = sel: shapeless '
@@ -558,6 +558,34 @@ def gen_cases(rng, tier):
         if lead and len({tuple(t['shape'][:1]) for t in targets}) != 1:
             continue
         cases.append(mk({'op': 'reuse', 'index': index, 'targets': targets, 'bare': not lead and rng.random() < 0.5}))
+    # rank-0 rejection table: a shapeless object x EVERY index kind (masked and unmasked, class constants), alone and
+    # next to None / Ellipsis: only True/False/masked Boolean, None, Ellipsis and ':' are indices of a shapeless object;
+    # whether anything else is rejected ("too many indices") must not depend on the index's mask
+    full = {'k': 'slice', 'a': None, 'b': None, 'c': None}
+    table = [{'k': 'int', 'v': 0, 'form': 'py', 'm': False}, {'k': 'int', 'v': -1, 'form': 'np', 'm': False},
+             {'k': 'int', 'v': 0, 'form': 'Scalar', 'm': False}, {'k': 'int', 'v': 0, 'form': 'Scalar', 'm': True},
+             {'k': 'int', 'v': 3, 'form': 'Scalar', 'm': True}, {'k': 'int', 'v': 0, 'form': 'const', 'm': True},
+             {'k': 'vec', 'shape': [], 'n': 2, 'v': [0, 0], 'form': 'Pair', 'm': 'F'},
+             {'k': 'vec', 'shape': [], 'n': 2, 'v': [0, 0], 'form': 'Pair', 'm': 'T'},
+             {'k': 'vec', 'shape': [], 'n': 3, 'v': [0, 1, 0], 'form': 'Vector', 'm': 'T'},
+             {'k': 'vec', 'shape': [2], 'n': 2, 'v': [0, 0, 0, 0], 'form': 'Pair', 'm': 'T'},
+             {'k': 'bool', 'v': True, 'form': 'py', 'm': False}, {'k': 'bool', 'v': False, 'form': 'np', 'm': False},
+             {'k': 'bool', 'v': True, 'form': 'Boolean', 'm': False}, {'k': 'bool', 'v': False, 'form': 'Boolean', 'm': False},
+             {'k': 'bool', 'v': True, 'form': 'Boolean', 'm': True}, {'k': 'bool', 'v': False, 'form': 'Boolean', 'm': True},
+             {'k': 'bool', 'v': True, 'form': 'const', 'm': True},
+             {'k': 'none'}, {'k': 'ell'}, full, {'k': 'slice', 'a': 0, 'b': None, 'c': None}, {'k': 'slice', 'a': None, 'b': 1, 'c': None},
+             {'k': 'iarr', 'shape': [1], 'v': [0], 'form': 'np'}, {'k': 'iarr', 'shape': [1], 'v': [0], 'form': 'Scalar', 'm': 'T'},
+             {'k': 'iarr', 'shape': [2], 'v': [0, 0], 'form': 'Scalar', 'm': [True, True]},
+             {'k': 'barr', 'shape': [1], 'v': [True], 'form': 'np'}, {'k': 'barr', 'shape': [1], 'v': [True], 'form': 'Boolean', 'm': 'T'},
+             {'k': 'float', 'form': 'py'}, {'k': 'float', 'form': 'Scalar'}, {'k': 'bad', 'form': 'str'}]
+    for om in ('F', 'T'):
+        for cls in ('Scalar', 'Vector'):
+            for e in table:
+                for ctx in ([e], [{'k': 'none'}, e], [e, {'k': 'ell'}], [{'k': 'ell'}, e, {'k': 'none'}]):
+                    obj = {'cls': cls, 'shape': [], 'item': R.ITEMS[cls][0], 'mask': om,
+                           'derivs': ({'t': {'denom': [], 'mask': 'F'}} if cls == 'Scalar' and om == 'T' else {})}
+                    cases.append(mk({'op': 'get', 'obj': obj, 'index': [dict(x) for x in ctx],
+                                     'bare': len(ctx) == 1 and e['k'] != 'iarr'}))
     # shapeless objects with derivatives: every combination of object mask x derivative mask x a few scalar indices
     bm = {'k': 'bool', 'v': True, 'form': 'Boolean', 'm': True}
     for om in ('F', 'T'):
